@@ -34,6 +34,7 @@ Record image := {
   i_rootpgt : option (aspace * N);
   i_virt_bits : option N;
   i_xen_xlat : option bool;
+  i_page_shift : option N;
   (* callbacks *)
   sym_init_top_pgt : cbres;
   sym_init_level4_pgt : cbres;
@@ -44,6 +45,13 @@ Record image := {
   reg_cr4 : cbres;
   num_sme_mask : cbres;
   num_pgtable_l5_enabled : cbres;
+  (* callbacks of the riscv64 / aarch64 set-ups (Sys/LinuxRvA64Model.v) *)
+  sym_swapper_pg_dir : cbres;
+  num_va_kernel_pa_offset : cbres;
+  num_PAGE_OFFSET : cbres;
+  num_VA_BITS : cbres;
+  num_kimage_voffset : cbres;
+  num_TCR_EL1_T1SZ : cbres;
   (* read callback *)
   caps_kphys : bool; caps_machphys : bool; caps_kv : bool;
   raw : aspace -> N -> rdres
